@@ -376,6 +376,8 @@ def run_inner(args):
             raised = '__stuck__'
         except _Slow:
             raised = '__slow__'
+        except (ArithmeticError, ValueError, IndexError, KeyError, TypeError) as ex:      # a crash on a valid call is an outcome of the call (rejected by the trace spec), not of the harness
+            raised = '%s: %s' % (type(ex).__name__, ex)
         finally:
             rec.uninstall()
         if raised == '__slow__':
@@ -435,7 +437,7 @@ def run_inner(args):
                         what = 'KF-optimistic-estimate ' + what
         last = rec.events[-1] if rec.events else None
         evs.append({'op': 'end', 'what': what, 'steps': int(info['steps']), 'ksteps': int(info['krylov_steps']), 'ncv_info': int(info['ncv']), 'ncv0': ncv,
-                    'ncvmax': int(min(30, v.size)), 'reached': True, 'last_rejected': False, 'verdicts': verd})
+                    'ncvmax': int(last['ncv_max']) if last is not None else 30, 'reached': True, 'last_rejected': False, 'verdicts': verd})      # the controller's own bound, as recorded
         out_events += evs
     P = P0
     # ---------------- eigs ----------------
@@ -655,5 +657,5 @@ def main(tier, seed, replay=None):
     rep.assumptions += ['dense references (scipy.linalg.expm, numpy eig / eigvalsh, residuals) and all norms are floating-point observations; the error bound used for expmv is 20*tol + 1e-13*(10 + map applications)',
                         'the dense matrix of the map is built column by column through the map itself on the sector basis given by compress_to_1d / to_numpy',
                         'eigs cases whose Krylov breakdown is numerically ambiguous (residual between 1e-15 and 1e-10 relative) are not claimed',
-                        'expmv calls needing more than %d controller iterations are skipped and counted (ncv_max = min(30, stored size) makes tiny stored vectors slow, not wrong)' % MAX_ITERS]
+                        'expmv calls needing more than %d controller iterations are skipped and counted' % MAX_ITERS]
     return rep.finish()
